@@ -87,3 +87,5 @@ pub mod handshake;
 pub mod messages;
 pub mod sessions;
 pub mod time;
+#[cfg(feature = "verif_hooks")]
+pub mod verif_hooks;
